@@ -17,7 +17,8 @@ class BW(Worker):
         self.num_stream_threads = nst        # > 0: call() runs in the worker's own thread pool (Worker.stream)
 
     def call(self, x):
-        i, dur, fail = x
+        i, dur, fail = x[:3]
+        pad = x[3] if len(x) > 3 else 0
         if dur:
             time.sleep(dur / 1000)
         if fail == 8:
@@ -26,4 +27,4 @@ class BW(Worker):
             raise TimeoutError(fail)             # the builtin one (a driver's timeout), not the server's
         if fail:
             raise StageErr(fail)
-        return i * 10 + 1
+        return i * 10 + 1 if not pad else (i * 10 + 1, bytes(pad))      # pad: a result larger than an OS pipe buffer
